@@ -57,10 +57,14 @@ func (c *chainFetcher) FetchBlockBySha(sha *wire.Hash) (blk *wire.MsgBlock, err 
 	return ret.MsgBlock(), nil
 }
 
+// FetchBlockByHeight will not returns error if not exists
 func (c *chainFetcher) FetchBlockByHeight(height uint64) (blk *wire.MsgBlock, err error) {
 	sha, err := c.db.FetchBlockShaByHeight(height)
 	if err != nil && err != storage.ErrNotFound {
 		return nil, err
+	}
+	if sha == nil {
+		return nil, nil
 	}
 	return c.FetchBlockBySha(sha)
 }
